@@ -106,11 +106,28 @@ def build_compound(mask, kind):
         res = w.must(['dtype', 'PPX', [['Money', 1], ['Length', -1]], None,
                        None])
         den = {'kg': 'm', 'g': 'mm'}
+    elif kind == 'mh':
+        res = w.must(['dtype', 'PPX', [['Money', 1], ['Mass', -1],
+                                       ['Duration', -1]], None, None])
+        den = {}
     else:
         res = w.must(['dtype', 'PPX', [['Money', 1], ['Duration', -2]],
                        None, None])
         den = {'kg': 's', 'g': 'ms'}
     declared = []
+    if kind == 'mh':
+        # symbols with two division signs, one unit defined through the other
+        w.must(['unit', 'PPX', 'EUR/kg/h', ['derive', ['EUR', 'kg', 'h']]])
+        declared.append('EUR/kg/h')
+        if mask & 2:
+            w.must(['unit', 'PPX', 'EUR/g/h', ['scaled', 'i:1000',
+                                                'EUR/kg/h']])
+            declared.append('EUR/g/h')
+        if mask & 4:
+            w.must(['unit', 'PPX', 'USD/kg/h', ['derive', ['USD', 'kg',
+                                                           'h']]])
+            declared.append('USD/kg/h')
+        return w, declared
     for i, (c, d) in enumerate(COMPOUND_UNITS):
         if mask >> i & 1:
             sym = f"{c}/{den[d]}" + ('²' if kind == 'dur2' else '')
@@ -468,6 +485,7 @@ def run(tier, seed):
     cparts = [(mask, 'mass') for mask in range(16)]
     cparts += [(mask, k) for mask in (0, 1, 3, 6, 15)
                for k in ('length', 'dur2')]
+    cparts += [(mask, 'mh') for mask in (1, 3, 7)]
     crates = [r for r in rates if r[0] in ('EUR', 'USD', 'JPY')
               and r[1] in ('EUR', 'USD', 'JPY')][::2 if tier == 'quick'
                                                   else 1]
